@@ -23,7 +23,7 @@ from gen.models import unit_quat, unit_vec, fmt
 META = {
     "technique": "Lean 4 proofs over the reals about a hand-written executable model of the CSR 'lower triangle by rows' routines (loop invariants by list induction, generic dimension and sparsity pattern; finite-dimensional linear algebra from Mathlib for the left inverse and for positive definiteness) and about c2lean-translated spatial kernels (ring) + bitwise differential correspondence of the model (Float) with the compiled engine on the engine's own matrices + property oracle on the real engine",
     "text": "Proved for every dimension n and every sparsity pattern accepted by lowerOk (diagonal slot last, strictly increasing columns below the diagonal) — for mj_factorI additionally treeOk (row of column c = prefix of the row, as mj_makeDofDofSparse lays out any dof_parentid forest): the dense matrix of mju_sym2dense (mj_fullM) times v equals mju_mulSymVecSparse (mj_mulM) entry by entry, and both equal the matrix D + Lo + Lo^T the format stands for; the output of mju_sym2dense is symmetric for every input whatsoever; mju_dotSparse's 4-accumulator scheme is the plain dot product; whatever qLD / qLDiagInv hold (lower pattern, non-zero qLDiagInv), the three passes of mj_solveLD return the solution y of (L^T D L) y = x with L the unit lower factor stored in the off-diagonal slots and D = 1/qLDiagInv — hence if L^T D L = M then mj_mulM(mj_solveM(x)) = x and mj_solveM(mj_mulM(v)) = v; mj_factorI on a tree pattern produces exactly such a factorisation (L^T D L = M entry by entry, qLDiagInv = 1/D, pattern unchanged) whenever no stored qLDiagInv is zero (ltdl_reconstruct: induction over the backward row loop with the invariant M = sum_{r done} d_r l_r l_r^T + remaining leading block, the positional mju_addToScl on row prefixes justified by treeOk), so mj_solveM o mj_mulM = mj_mulM o mj_solveM = id for the engine's own factorisation (solveM_mulM_inverse). Spatial algebra on the kernels translated from engine_util_spatial.c / engine_inline.h: crossForce is minus the transpose of crossMotion, crossMotion(v, v) = 0, the mji_ inline copies equal the mju_ functions, mju_inertCom + mju_mulInertVec implement the parallel-axis theorem (momentum (R I R^T w + d x p, p), p = m (v + w x d)) and their quadratic form is sum_k I_k (R^T w)_k^2 + m |v + w x d|^2. Algebra of positive definiteness: sum_b J_b^T I_b J_b + diag(armature) is positive semidefinite when every I_b is and armature >= 0, and positive definite when every I_b is and every non-zero v is seen by some J_b or carries positive armature.",
-    "note": "NOT proved, decided by the oracle on the real engine only: that mj_crb computes sum J^T I J + armature (composite-rigid-body recursion), that mj_rne(a) = M a + bias, qfrc_bias = rne(0) (+ tendon bias), and that this bias is the Coriolis / centrifugal / gyroscopic / gravity force of the Lagrangian with the engine's own M(q) (finite-difference oracle; skipped for models whose tendon inertia falls outside M's pattern). The model abstracts flat address arithmetic (rowadr[i] + k, i*n + col) to rows; the AVX kernels, sleep filtering (index != NULL) and mj_solveM2 are not modelled. Tendon armature: the engine adds armature * J^T J only inside M's tree sparsity pattern (upstream test TendonArmature expects exactly that); the oracle checks that behaviour and counts the models where off-pattern terms are dropped (reported in the evidence, not as a failure). Reals vs doubles: rounding is outside the proofs.",
+    "note": "NOT proved, decided by the oracle on the real engine only: that mj_crb computes sum J^T I J + armature (composite-rigid-body recursion), that mj_rne(a) = M a + bias, qfrc_bias = rne(0) (+ tendon bias), and that this bias is the Coriolis / centrifugal / gyroscopic / gravity force of the Lagrangian with the engine's own M(q) (finite-difference oracle; skipped for models whose tendon inertia falls outside M's pattern). The model abstracts flat address arithmetic (rowadr[i] + k, i*n + col) to rows; the AVX kernels, sleep filtering (index != NULL) and mj_solveM2 are not modelled. Tendon armature: the engine adds armature * J^T J only inside M's tree sparsity pattern (upstream test TendonArmature expects exactly that); the oracle checks that behaviour and counts the states where off-pattern terms are dropped (evidence only) — but when the truncation makes M itself indefinite although mj_crb's matrix and the untruncated sum are positive definite, that is reported as a failure under the stable key c06:M-indefinite-offtree-tendon-armature (a directed 'parent joint + two sibling joints + one fixed tendon' tree in every run exhibits it). Second stable key c06:tendon-bias-ball-followed-by-slide: the tendon-armature part of qfrc_bias is wrong for tendons attached below a ball joint that is followed by a slide joint on the same body (root cause mj_jacDot, see C07's c07:jacDot-ball-followed-by-slide; recognised by replacing the engine's tendon bias with armature * J^T (Jdot v) from central differences of ten_J). Reals vs doubles: rounding is outside the proofs.",
 }
 
 P = "MjProof.C06."
@@ -32,7 +32,7 @@ THEOREMS = [P + t for t in (
     "solveLD_solves", "solveLD_inverts_of_cert", "solveLD_mulM_of_cert", "ltdl_reconstruct", "solveM_mulM_inverse",
     "crossForce_dual_crossMotion", "crossMotion_self", "mji_crossForce_eq", "mji_crossMotion_eq", "mji_dot6_eq",
     "inertCom_parallel_axis", "inertCom_quadratic_form",
-    "sum_congruence_psd", "sum_congruence_pd",
+    "sum_congruence_psd", "quad_form", "sum_congruence_pd",
 )]
 
 KERNELS = ["mju_cross", "mju_crossMotion", "mju_crossForce", "mju_inertCom", "mju_mulInertVec", "mju_dofCom",
@@ -388,7 +388,7 @@ def model_block(rng, tree, nstates, thorough):
             add("solveM 3 " + " ".join(fb(x) for _ in range(3) for x in vec(rng.choice(styles))), kind="rec")
             add("mulM " + " ".join(fb(x) for x in vec(rng.choice(styles))), kind="rec")
         add("round " + " ".join(fb(x) for x in vec("gauss") + vec("gauss")), kind="round")
-    if 1 <= nv <= (24 if thorough else 12) and rng.random() < (0.7 if thorough else 0.5):
+    if 1 <= nv <= (24 if thorough else 12) and (rng.random() < (0.7 if thorough else 0.5) or tree.info.get("directed")):
         l2, m2 = lagrange_block(rng, tree)
         lines += l2
         meta += m2
@@ -807,9 +807,87 @@ def run_stream(ctx, impl, drv, trees, nstates, dev, stats, max_report=6):
     return found, nfail, recs, nbad
 
 
+def directed_tree(rng, kind):
+    """small hand-shaped trees aimed at structures that random generation reaches rarely:
+       'sibling-tendon': a parent joint with two sibling child joints and a fixed tendon (with armature) over the three;
+       'ball-slide-tendon': a ball joint followed by a slide joint on one body, a child body, and a spatial tendon with
+                            armature between a site below them and a site on the world-attached parent."""
+    t = Tree()
+    L = t.lines.append
+    L("option timestep 0.002")
+    L("option disableflags %d" % (E("mjDSBL_CONTACT") | E("mjDSBL_CONSTRAINT")))
+    t.gravity = [0.0, 0.0, -9.81]
+    h = [0]
+
+    def newh():
+        h[0] += 1
+        return h[0]
+
+    def body(parent, name, jts, site=False):
+        bh = newh()
+        L("body %d %d" % (bh, parent))
+        L("name %d %s" % (bh, name))
+        L("set %d pos %s" % (bh, fmt([rng.uniform(-0.5, 0.5) for _ in range(3)])))
+        L("set %d quat %s" % (bh, fmt(unit_quat(rng))))
+        for jt in jts:
+            jh = newh()
+            jn = "j%d" % (len(t.joints) + 1)
+            L("joint %d %d" % (jh, bh))
+            L("name %d %s" % (jh, jn))
+            L("set %d type %d" % (jh, E("mjJNT_" + jt.upper())))
+            L("set %d pos %s" % (jh, fmt([rng.uniform(-0.2, 0.2) for _ in range(3)])))
+            if jt != "ball":
+                L("set %d axis %s" % (jh, fmt(unit_vec(rng))))
+            t.joints.append({"name": jn, "type": jt, "body": name, "qposadr": t.nq, "dofadr": t.nv, "handle": jh})
+            t.nq += 4 if jt == "ball" else 1
+            t.nv += 3 if jt == "ball" else 1
+        a, b, c = (rng.uniform(0.1, 0.4) for _ in range(3))
+        mass = rng.uniform(0.3, 3.0)
+        L("set %d explicitinertial 1" % bh)
+        L("set %d mass %r" % (bh, mass))
+        L("set %d inertia %s" % (bh, fmt([mass / 12 * (b * b + c * c), mass / 12 * (a * a + c * c), mass / 12 * (a * a + b * b)])))
+        L("set %d ipos %s" % (bh, fmt([rng.uniform(-0.1, 0.1) for _ in range(3)])))
+        t.bodies.append({"name": name, "parent": parent, "mocap": False})
+        if site:
+            sh = newh()
+            sn = "s%d" % (len(t.sites) + 1)
+            L("site %d %d" % (sh, bh))
+            L("name %d %s" % (sh, sn))
+            L("set %d pos %s" % (sh, fmt([rng.uniform(-0.3, 0.3) for _ in range(3)])))
+            t.sites.append({"name": sn, "body": len(t.bodies)})
+        return bh
+    if kind == "sibling-tendon":
+        p0 = body(0, "b1", [rng.choice(("hinge", "slide"))])
+        body(p0, "b2", [rng.choice(("hinge", "slide"))])
+        body(p0, "b3", [rng.choice(("hinge", "slide"))])
+        th = newh()
+        L("tendon %d" % th)
+        L("name %d t1" % th)
+        for j in t.joints:
+            L("wrap %d joint %s %r" % (th, j["name"], rng.choice((-1, 1)) * rng.uniform(1.0, 2.0)))
+        L("set %d armature %r" % (th, rng.uniform(1.0, 3.0)))
+        t.ntendon = 1
+    else:
+        p0 = body(0, "b1", ["hinge"], site=True)
+        p1 = body(p0, "b2", ["ball", "slide"], site=False)
+        body(p1, "b3", ["hinge"], site=True)
+        th = newh()
+        L("tendon %d" % th)
+        L("name %d t1" % th)
+        L("wrap %d site s1" % th)
+        L("wrap %d site s2" % th)
+        L("set %d armature %r" % (th, rng.uniform(0.3, 1.5)))
+        t.ntendon = 1
+    kinds = {"free": 0, "ball": 0, "slide": 0, "hinge": 0}
+    for j in t.joints:
+        kinds[j["type"]] += 1
+    t.info = {"nbody": len(t.bodies), "nv": t.nv, "kinds": kinds, "ntendon": t.ntendon, "directed": kind}
+    return t
+
+
 def gen_trees(ctx, n, maxbody, maxdof):
-    trees = []
-    hist = {}
+    trees = [directed_tree(ctx.rng, "sibling-tendon"), directed_tree(ctx.rng, "ball-slide-tendon")]
+    hist = {"directed": 2}
     for k in range(n):
         r = ctx.rng.random()
         mb = maxbody if r < 0.6 else max(2, maxbody // 3)
